@@ -4,6 +4,7 @@ import itertools
 
 from hypothesis import strategies as st
 from metapype.eml import rule as R
+from vf.shipped import RULES
 from metapype.eml.exceptions import MetapypeRuleError
 from metapype.eml.validation_errors import ValidationError as VE
 from metapype.model.node import Node
@@ -30,7 +31,7 @@ FOREIGN_ATTR = "zzForeignAttr"
 
 
 def expected(rule_name, attrs):
-    spec = R.rules_dict[rule_name][0]
+    spec = RULES[rule_name][0]
     exp = collections.Counter()
     for a, s in spec.items():
         if s[0] and a not in attrs:
@@ -71,7 +72,7 @@ def check_case(rule_name, attrs):
 
 
 def check_introspection(rule_name):
-    spec = R.rules_dict[rule_name][0]
+    spec = RULES[rule_name][0]
     r = R.Rule(rule_name)
     for a, s in spec.items():
         case = {"rule": rule_name, "introspect": a}
@@ -119,14 +120,14 @@ def check_introspection(rule_name):
 
 
 def assignments(rule_name):
-    spec = R.rules_dict[rule_name][0]
+    spec = RULES[rule_name][0]
     opts = []
     for a, s in spec.items():
         # absent, each listed value, an unlisted value, and the empty string (present, but falsy)
         vals = [None] + (list(s[1:]) + [UNLISTED] + ([""] if "" not in s[1:] else []) if len(s) > 1 else ["v", ""])
         opts.append([(a, v) for v in vals])
     # foreign attribute: none, a made-up name, and every name that OTHER rules declare but this one does not
-    elsewhere = sorted({a for r in R.rules_dict.values() for a in r[0]} - set(spec))
+    elsewhere = sorted({a for r in RULES.values() for a in r[0]} - set(spec))
     for combo in itertools.product(*opts):
         for foreign in (None, FOREIGN_ATTR):
             attrs = {a: v for a, v in combo if v is not None}
@@ -141,7 +142,7 @@ def assignments(rule_name):
 
 
 def enum_rule(ctx, rule_name):
-    spec = R.rules_dict[rule_name][0]
+    spec = RULES[rule_name][0]
     n = nt = 0
     for attrs in assignments(rule_name):
         n += 1
@@ -162,9 +163,9 @@ _text = st.text(st.characters(blacklist_categories=("Cs",)), max_size=12)
 
 @st.composite
 def concrete(draw):
-    names = sorted(R.rules_dict)
+    names = sorted(RULES)
     rule_name = draw(st.sampled_from(names))
-    spec = R.rules_dict[rule_name][0]
+    spec = RULES[rule_name][0]
     attrs = {}
     for a, s in spec.items():
         k = draw(st.integers(0, 3))
@@ -210,7 +211,7 @@ def _enum_chunk(ctx, rule_names):
 
 
 def run(ctx):
-    names = sorted(R.rules_dict)
+    names = sorted(RULES)
     chunks = [names[i::8] for i in range(8)]
     ctx.pmap(_enum_chunk, chunks)
     ctx.pmap(hyp_shard, range(8))
